@@ -6,6 +6,7 @@ import Anndb.Drive.Routing
 import Anndb.Drive.Codec
 import Anndb.Drive.Wal
 import Anndb.Drive.Cluster
+import Anndb.Drive.Catalogue
 /-! `driver <engine>`: the executable Lean models behind a one-line-in, one-line-out protocol. -/
 def main (args : List String) : IO UInt32 := do
   let h ← IO.getStdin
@@ -19,4 +20,5 @@ def main (args : List String) : IO UInt32 := do
   | ["codec"] => Anndb.Drive.Codec.main h out; return 0
   | ["wal"] => Anndb.Drive.Wal.main h out; return 0
   | ["cluster"] => Anndb.Drive.Cluster.main h out; return 0
+  | ["catalogue"] => Anndb.Drive.Catalogue.main h out; return 0
   | _ => IO.eprintln "usage: driver <engine>"; return 2
